@@ -87,6 +87,7 @@ def inline_call(caller, bidx, callee):
     bmap = lambda b: b + boff
     pmap = lambda p: p + poff
     caller["locals"].extend(copy.deepcopy(callee["locals"]))
+    caller.setdefault("inlined_ret", []).append(lmap(0))
     if callee.get("promoted"):
         caller.setdefault("promoted", [])
         caller["promoted"].extend(copy.deepcopy(callee["promoted"]))
